@@ -32,7 +32,8 @@ def install():
     _installed = True
     from crosshair import core, opcode_intercept, simplestructs
     import crosshair.core_and_libs  # noqa: F401  (registers the library patches)
-    from crosshair.tracers import NoTracing
+    import collections.abc
+    from crosshair.tracers import NoTracing, ResumedTracing
     from crosshair.libimpl.builtinslib import AnySymbolicStr, SymbolicInt, SymbolicBool, SymbolicFloat
 
     SYM = (SymbolicInt, SymbolicBool, SymbolicFloat, AnySymbolicStr)
@@ -56,6 +57,10 @@ def install():
             return [_placeholder(i, depth + 1) for i in x]
         if type(x) is dict:
             return {k: _placeholder(v, depth + 1) for k, v in x.items()}
+        if isinstance(x, collections.abc.Mapping):  # CrossHair's dict proxies
+            with ResumedTracing():
+                pairs = [(k, v) for k, v in x.items()]
+            return {(k if type(k) in (str, int) else str(_placeholder(k))): _placeholder(v, depth + 1) for k, v in pairs}
         return Opaque("<%s>" % type(x).__name__)
 
     def _opaque_percent(self, other):
